@@ -275,7 +275,11 @@ def post(sim, h):
 
         from tdgl.parameter import CompositeParameter
 
-        if isinstance(A, CompositeParameter):
+        import numbers as _numbers
+
+        if isinstance(A, CompositeParameter) and not all(isinstance(x_, (tdgl.Parameter, _numbers.Number)) for x_ in (A.left, A.right)):
+            V.append(Violation("operands-corrupted", f"after pickling / reloading copies, the operands of the ORIGINAL composite are {type(A.left).__name__} and {type(A.right).__name__}", **where))
+        elif isinstance(A, CompositeParameter):
             names = {_op.add: "+", _op.sub: "-", _op.mul: "*", _op.truediv: "/", _op.pow: "**"}
             for o, sym in names.items():
                 try:
